@@ -33,6 +33,22 @@ def decideMemberFate (me : Nat) (myKey : Option String) (members : List Nat) (ev
       else if me ∈ e.misbehaved then .error .misbehaved
       else .ok (members.filter (fun m => !e.misbehaved.contains m))
 
+/-- `group.Group` after GJKR: the members and the node's LOCAL inactive / disqualified marks -/
+structure Group where
+  members : List Nat
+  inactive : List Nat
+  disqualified : List Nat
+  deriving DecidableEq, Repr
+
+/-- `Group.OperatingMemberIndexes()` — the local view (NOT what the fate decision may use) -/
+def Group.operating (g : Group) : List Nat :=
+  g.members.filter (fun m => !g.inactive.contains m && !g.disqualified.contains m)
+
+/-- `decideMemberFate` on the real argument: it reads `Group.MemberIndexes()` only. -/
+def decideMemberFateG (me : Nat) (myKey : Option String) (g : Group) (ev : Option Event) :
+    Except Err (List Nat) :=
+  decideMemberFate me myKey g.members ev
+
 def insertSorted (a : Nat) : List Nat → List Nat
   | [] => [a]
   | b :: rest => if a ≤ b then a :: b :: rest else b :: insertSorted a rest
@@ -72,6 +88,13 @@ def members (n : Nat) : List Nat := List.range' 1 n
 def fateThenOperators (me n honest : Nat) (myKey : Option String) (ev : Option Event)
     (sel : List String) : Res :=
   match decideMemberFate me myKey (members n) ev with
+  | .error e => .err e
+  | .ok ids => resolveGroupOperators sel ids n honest
+
+/-- the same with the member's local IA / DQ marks on `gjkrResult.Group` -/
+def fateThenOperatorsG (me n honest : Nat) (myKey : Option String) (ev : Option Event)
+    (sel : List String) (localIA localDQ : List Nat) : Res :=
+  match decideMemberFateG me myKey ⟨members n, localIA, localDQ⟩ ev with
   | .error e => .err e
   | .ok ids => resolveGroupOperators sel ids n honest
 
